@@ -68,7 +68,10 @@ void parallel_for_staticImpl(
     ssize_t maxThreads,
     bool wait,
     bool reuseExistingState,
-    uint32_t granularity = 1) {
+    uint32_t granularity,
+    IntegerT lastChunkEnd) {
+  // lastChunkEnd is where the last chunk ends. It equals range.end unless the caller wants the last
+  // chunk to absorb a sub-granularity tail that follows the (granularity-trimmed) range.
   using size_type = typename ChunkedRange<IntegerT>::size_type;
 
   size_type numThreads = std::min<size_type>(taskSet.numPoolThreads() + 1, maxThreads);
@@ -99,7 +102,7 @@ void parallel_for_staticImpl(
       smallChunk,
       perfectlyChunked ? numThreads : static_cast<size_type>(chunking.transitionTaskIndex),
       range.start,
-      range.end};
+      lastChunkEnd};
 
   // Determine which chunk the calling thread should take for L2 locality.
   // If the caller is a pool thread with a ring, it takes the chunk matching
@@ -149,6 +152,36 @@ void parallel_for_staticImpl(
     }
     taskSet.wait();
   }
+}
+
+// Same, with the last chunk ending at range.end.
+template <
+    typename TaskSetT,
+    typename IntegerT,
+    typename F,
+    typename StateContainer,
+    typename StateGen>
+void parallel_for_staticImpl(
+    TaskSetT& taskSet,
+    StateContainer& states,
+    const StateGen& defaultState,
+    const ChunkedRange<IntegerT>& range,
+    F&& f,
+    ssize_t maxThreads,
+    bool wait,
+    bool reuseExistingState,
+    uint32_t granularity = 1) {
+  parallel_for_staticImpl(
+      taskSet,
+      states,
+      defaultState,
+      range,
+      std::forward<F>(f),
+      maxThreads,
+      wait,
+      reuseExistingState,
+      granularity,
+      range.end);
 }
 
 } // namespace detail
